@@ -21,6 +21,8 @@ SETS = {
     "scan fwd/rev": ([("XL_CONN", "XH_CONN"), ("XL_EDGE", "XH_EDGE"), ("YL_CONN", "YH_CONN"), ("YL_EDGE", "YH_EDGE"), ("begin", "rbegin"),
                       ("end", "rend"), ("nvert", "rvert"), ("_Rb_tree_const_iterator", "reverse_iterator"), ("_Rb_tree_iterator", "reverse_iterator")], []),
     "src/dst": ([("src", "dst"), ("Src", "Dst")], []),
+    "i/j": ([("i", "j"), ("I", "J"), ("vert1", "vert2")], []),
+    "j/k": ([("J", "K"), ("j", "k")], []),
     "begin/finish": ([("Begin", "Finish"), ("begin", "finish"), ("front", "back")], []),
 }
 PROT = re.compile(r"^(CXX\w+|\w+Expr|\w+Stmt|\w+Operator|\w+Literal|decl|param|init|op|arrow|postfix|v\d+|NS|std|double|int|unsigned|"
